@@ -851,8 +851,21 @@ impl Tracer {
         pt(libc::PTRACE_DETACH, self.main_tid, 0, 0);
     }
 
+    /// End the process. Every traced thread has to be collected by the tracer before the status of
+    /// the thread-group leader becomes available to `waitpid(pid)`.
     pub fn kill(&mut self) {
         unsafe { libc::kill(self.pid, libc::SIGKILL) };
+        for t in &self.threads {
+            if t.tid != self.pid {
+                let mut status = 0i32;
+                loop {
+                    let r = unsafe { libc::waitpid(t.tid, &mut status, libc::__WALL) };
+                    if r < 0 || libc::WIFEXITED(status) || libc::WIFSIGNALED(status) {
+                        break;
+                    }
+                }
+            }
+        }
     }
 
     pub fn into_info(self) -> TraceInfo {
@@ -872,6 +885,15 @@ fn trace_child_inner(pid: i32, plan: &PtracePlan, nclients: usize, deadline: Ins
         Ok(t) => t,
         Err(e) => {
             unsafe { libc::kill(pid, libc::SIGKILL) };
+            // collect whatever thread of that process reports before its leader can be reaped
+            // (this worker's only other child, the oracle server, does not change state)
+            loop {
+                let mut status = 0i32;
+                let r = unsafe { libc::waitpid(-1, &mut status, libc::__WALL) };
+                if r < 0 || (r == pid && (libc::WIFEXITED(status) || libc::WIFSIGNALED(status))) {
+                    break;
+                }
+            }
             let mut info = TraceInfo::default();
             info.setup_error = Some(e);
             return (info, false);
@@ -1157,6 +1179,17 @@ fn gen_one_operator(seed: u64) -> E1Run {
     } else {
         (*rng.pick(&all_ops)).to_string()
     };
+    // a quarter of the operator workloads give every caller an operator of its own from one family
+    // (two code paths around the same state: lock order, a table one fills and the other reads)
+    const FAMILIES: &[&[&str]] = &[
+        &["map", "filter", "all", "some", "none", "reduce"],
+        &["+", "-", "*", "/", "%", "max", "min"],
+        &["==", "!=", "===", "!==", "<", "<=", ">", ">="],
+        &["cat", "substr", "in", "merge"],
+        &["if", "?:", "and", "or", "!", "!!"],
+        &["var", "missing", "missing_some"],
+    ];
+    let family: Option<&[&str]> = if !helper && rng.chance(1, 4) { FAMILIES.iter().find(|f| f.contains(&opname.as_str())).copied() } else { None };
     // operand style of this workload: numeric strings, words, numbers, mixed
     let style = rng.weighted(&[40, 25, 15, 20]);
     let draw = |rng: &mut Rng| -> Value {
@@ -1194,7 +1227,10 @@ fn gen_one_operator(seed: u64) -> E1Run {
                 Op::helper(h, vec![Value::Array(xs).to_string()], fresh)
             }
         } else {
-            let o = opname.as_str();
+            let o: &str = match family {
+                Some(f) => *rng.pick(f),
+                None => opname.as_str(),
+            };
             let path = |rng: &mut Rng| json!(*rng.pick(PATHS));
             let small_array = |rng: &mut Rng, scalar: &dyn Fn(&mut Rng) -> Value| -> Value {
                 let n = rng.range(2, 4);
@@ -1252,7 +1288,7 @@ fn gen_one_operator(seed: u64) -> E1Run {
         fault: None,
         ambient: crate::ambient::Ambient::default(),
         schedule: None,
-        shape: format!("one-operator-many-callers:{}", if helper { "helper" } else { "operator" }),
+        shape: if family.is_some() { "operator-family-many-callers".to_string() } else { format!("one-operator-many-callers:{}", if helper { "helper" } else { "operator" }) },
         alloc_yield: false,
         tid_offset: 0,
         ptrace: None,
@@ -1354,11 +1390,31 @@ pub fn main(a: &crate::Args) -> i32 {
         notes.push("no symbol table: preemption points are not weighted towards library code".into());
     }
 
+    // --workload FILE: sweep one given workload ({"threads": [[op, ...], ...]}) instead of drawing workloads
+    let fixed_workload: Option<E1Run> = if a.has("workload") {
+        match std::fs::read_to_string(a.str("workload", "")).ok().and_then(|t| serde_json::from_str::<Value>(&t).ok()).and_then(|v| E1Run::from_json(&v)) {
+            Some(mut r) => {
+                r.shape = "one-operator-given".into();
+                r.ptrace = None;
+                Some(r)
+            }
+            None => {
+                eprintln!("cannot read workload file");
+                return 2;
+            }
+        }
+    } else {
+        None
+    };
+    let max_workloads = if fixed_workload.is_some() { 1 } else { max_workloads };
+    let sweep_every = if fixed_workload.is_some() { 1 } else { sweep_every };
     let mut i = worker;
     'outer: while workloads < max_workloads && (started.elapsed().as_secs_f64() < seconds || workloads == 0) && violations.len() < max_violations {
         let wl_seed = prng::mix(seed, &[crate::tier_id(&tier), 5, i]);
         i += workers;
-        let run = if prng::mix(wl_seed, &[0x5e1]) % 5 < 3 {
+        let run = if let Some(r) = &fixed_workload {
+            r.clone()
+        } else if prng::mix(wl_seed, &[0x5e1]) % 5 < 3 {
             gen_one_operator(wl_seed)
         } else {
             match gen_small(wl_seed, &corpus, &mut oracle) {
@@ -1395,7 +1451,7 @@ pub fn main(a: &crate::Args) -> i32 {
         }
         // one caller is profiled (its first call, single-stepped). Where every caller runs the same
         // operator its addresses serve for the others as well: any of them can be the victim.
-        let same_code = run.shape.starts_with("one-operator");
+        let same_code = run.shape.starts_with("one-operator") && run.shape != "one-operator-given";
         let mut victims: Vec<usize> = (0..n).collect();
         rng.shuffle(&mut victims);
         victims.truncate(if same_code { 2 } else { 1 });
